@@ -240,8 +240,14 @@ fn hostile_case(r: &mut Rng, q: usize, mon: &mut Mon, info: serde_json::Value) {
     let n = r.range(2, 8);
     let so = 1_000_000 + r.below(1000) * 100_000;
     for step in 0..n {
-        let kind = r.below(9);
+        let kind = r.below(10);
         let frame = match kind {
+            // a frame larger than any packet (fragment of 64 KiB and more), LAST or not
+            9 => {
+                let off = *r.pick(&[0usize, w, 2 * w, 10, 65535 - w]);
+                let len = *r.pick(&[65536usize, 65537, 65536 + 10, 65536 + w, 65536 + 2 * w, 70_000, 131_072]);
+                mk(so, off as u16, r.bool(), len, 7)
+            }
             // LAST at k·W with a short tail
             0 => mk(so, (w * r.range(1, 4) as usize).min(65000) as u16, true, r.range(0, 20) as usize, 7),
             // middle frame beyond the announced end
@@ -429,7 +435,7 @@ pub fn run(args: &Args, mon: &mut Mon) -> (String, Vec<&'static str>) {
     mon.sample_labeled("hostile", || json!({"frames": ["LAST at offset W (len 10)", "middle frame at 5·W"], "after": "honest 2-frame 0xAA packet, 1 queue"}));
 
     (
-        format!("{n_honest} honest cases: real Fragmenter output for boundary-directed packet sizes (1, W-1, W, W+1, 2W, 3W+1, 65535, random) x MTUs (MIN, MIN+1, 576, 1280, 1400, MAX, out of range) x 1..4 packets x 1..8 queues under 6 schedules (in order, reversed, shuffled, shuffled+duplicates, shuffled+one frame dropped, round-robin interleaving); all permutations (plus sampled duplicates) of the frames of 4 two-packet shapes with <=3 frames each; {n_hostile} hostile sequences of structured frames (LAST at k·W with short tail, middle frames beyond the announced end, inconsistent windows, empty fragments, offsets near 65535, foreign stream offsets, truncated/random headers) into slots warmed by honest traffic; allocation plateau run. distinct = distinct (schedule, packet/frame-count shape, queue count) and hostile frame-kind sequences."),
+        format!("{n_honest} honest cases: real Fragmenter output for boundary-directed packet sizes (1, W-1, W, W+1, 2W, 3W+1, 65535, random) x MTUs (MIN, MIN+1, 576, 1280, 1400, MAX, out of range) x 1..4 packets x 1..8 queues under 6 schedules (in order, reversed, shuffled, shuffled+duplicates, shuffled+one frame dropped, round-robin interleaving); all permutations (plus sampled duplicates) of the frames of 4 two-packet shapes with <=3 frames each; {n_hostile} hostile sequences of structured frames (LAST at k·W with short tail, middle frames beyond the announced end, inconsistent windows, empty fragments, offsets near 65535, frames of 64 KiB and more, foreign stream offsets, truncated/random headers) into slots warmed by honest traffic; allocation plateau run. distinct = distinct (schedule, packet/frame-count shape, queue count) and hostile frame-kind sequences."),
         vec![
             "provenance model over tagged bytes: an emitted byte must have been received at that position in a frame carrying the same stream offset",
             "'must be emitted' is only asserted when the number of multi-frame packets in the case does not exceed the number of queues (no eviction possible)",
